@@ -2,12 +2,15 @@ package grpctunnel
 
 import (
 	"context"
+	"strings"
 	"unicode/utf8"
 
 	"google.golang.org/grpc"
 	"google.golang.org/grpc/codes"
 	"google.golang.org/grpc/metadata"
 	"google.golang.org/grpc/status"
+
+	spb "google.golang.org/genproto/googleapis/rpc/status"
 )
 
 type (
@@ -80,4 +83,26 @@ func validateMetadata(md metadata.MD) error {
 		}
 	}
 	return nil
+}
+
+// validateMethodName reports whether the given method name can be carried in
+// a tunnel frame (see validateMetadata).
+func validateMethodName(methodName string) error {
+	if !utf8.ValidString(methodName) {
+		return status.Errorf(codes.Internal, "method name %q is not valid UTF-8 and cannot be sent over a tunnel", methodName)
+	}
+	return nil
+}
+
+// statusProto returns the protobuf form of the given status for a tunnel
+// frame. The message of a status is a Go string and so can hold any bytes,
+// for example when it was built from the text of an error that quotes binary
+// data. It travels as a protobuf string, so anything that is not valid UTF-8
+// is replaced (see validateMetadata for what would happen otherwise).
+func statusProto(stat *status.Status) *spb.Status {
+	p := stat.Proto()
+	if p != nil && !utf8.ValidString(p.Message) {
+		p.Message = strings.ToValidUTF8(p.Message, "\uFFFD")
+	}
+	return p
 }
